@@ -156,6 +156,8 @@ pub enum G {
     JustCtx,
     /// `item.repeated().configure(|cfg, ctx| cfg.exactly(n(ctx)))`, n: a->1 b->2 c->0, other->3
     RepCtx(Box<G>),
+    /// `item.repeated().configure(|cfg, ctx| cfg.at_most(n(ctx)))` — a range taken from the context
+    RepCtxMax(Box<G>),
     /// `item.repeated().try_configure(|cfg, ctx, span| if ctx != 'c' { Ok(cfg.exactly(n(ctx))) } else { Err(custom(span, "TC")) })`
     TryRepCtx(Box<G>),
 }
@@ -175,7 +177,7 @@ impl G {
             Map(a) | To(a) | Ignored(a) | Filter(a) | TryMap(a) | TryMapWith(a) | OrNot(a)
             | Not(a) | Rewind(a) | Boxed(a) | ToSlice(a) | ToSpan(a) | Validate(a, _)
             | Labelled(a, _) | MapErr(a) | Memo(a) | WithState(a) | NestedDelims(a)
-            | WithCtx(_, a) | MapCtx(a) | RepCtx(a) | TryRepCtx(a) | Snd(a) | Fst(a) | MapUnit(a)
+            | WithCtx(_, a) | MapCtx(a) | RepCtx(a) | RepCtxMax(a) | TryRepCtx(a) | Snd(a) | Fst(a) | MapUnit(a)
             | MapZ(a) | SliceWith(a) | SpanWith(a) | Mid(a) | Lazy(a) => vec![a],
             Rep(a, _, s) => {
                 let mut v = vec![&**a];
@@ -203,6 +205,21 @@ impl G {
 
     pub fn any_node(&self, f: &dyn Fn(&G) -> bool) -> bool {
         f(self) || self.children().iter().any(|c| c.any_node(f))
+    }
+
+    /// No backtracking construct anywhere: nothing ever rewinds (apart from primitives restoring their
+    /// own position), so the emissions preceding a failure are fully determined.
+    pub fn is_straight_line(&self) -> bool {
+        !self.any_node(&|g| {
+            !matches!(
+                g,
+                Just(_) | JustSeq(..) | Any | OneOf(_) | NoneOf(_) | Select(_) | End | Empty | Custom(..) | JustCtx
+                    | Map(_) | To(_) | Ignored(_) | Filter(_) | TryMap(_) | TryMapWith(_) | Boxed(_) | ToSlice(_) | ToSpan(_)
+                    | Validate(..) | Labelled(..) | MapErr(_) | Memo(_) | WithState(_) | Snd(_) | Fst(_) | MapUnit(_) | MapZ(_)
+                    | SliceWith(_) | SpanWith(_) | Mid(_) | Then(..) | IgnoreThen(..) | ThenIgnore(..) | PaddedBy(..)
+                    | DelimitedBy(..) | Group(..) | WithCtx(..) | ThenWithCtx(..) | IgnoreWithCtx(..) | MapCtx(_)
+            )
+        })
     }
 
     pub fn contains_not(&self) -> bool {
@@ -252,7 +269,7 @@ pub fn nullable(g: &G) -> bool {
                 _ => me,
             }
         }
-        RepCtx(_) | TryRepCtx(_) => true,
+        RepCtx(_) | RepCtxMax(_) | TryRepCtx(_) => true,
         SepBy(a, _, bd, _, _, sink) => {
             let me = bd.min == 0 || nullable(a);
             match sink {
@@ -507,6 +524,7 @@ impl fmt::Display for G {
             MapCtx(a) => write!(f, "map_ctx({})", a),
             JustCtx => write!(f, "just_ctx"),
             RepCtx(a) => write!(f, "rep_ctx({})", a),
+            RepCtxMax(a) => write!(f, "rep_ctx_max({})", a),
             TryRepCtx(a) => write!(f, "try_rep_ctx({})", a),
         }
     }
@@ -716,6 +734,7 @@ impl<'a> P<'a> {
             "nested_delims" => NestedDelims(un(self)?),
             "map_ctx" => MapCtx(un(self)?),
             "rep_ctx" => RepCtx(un(self)?),
+            "rep_ctx_max" => RepCtxMax(un(self)?),
             "try_rep_ctx" => TryRepCtx(un(self)?),
             "then" => {
                 let (a, c) = bin(self)?;
